@@ -32,6 +32,9 @@ func ZZ_C15_jti_step() {
 	s := NewMemoryStore()
 	now := time.Now()
 	maxN := 3
+	if zz.Thorough() {
+		maxN = 4
+	}
 	n := zz.Choice("n", maxN+1)
 	var pre []zzC15Entry
 	for i := 0; i < n; i++ {
